@@ -416,7 +416,16 @@ impl Check for BuildCheck {
 						.env("VERIF_NO_EVIDENCE", "1")
 						// quick: the indicator references are cheap (full budget), the method checks a quarter of theirs;
 						// thorough: an eighth of the thorough budgets (still 1.5x to 6x the quick ones)
-						.env("VERIF_RUNS_DIV", if tier == Tier::Thorough { "8" } else if matches!(c, "C05" | "C06") { "1" } else { "4" })
+						.env(
+							"VERIF_RUNS_DIV",
+							match (tier, set, c) {
+								// wide windows (up to 3000 elements) make the from-scratch references O(n) per step
+								(Tier::Thorough, "period_type_u16", "C02" | "C04" | "C13") => "64",
+								(Tier::Thorough, _, _) => "8",
+								(_, _, "C05" | "C06") => "1",
+								_ => "4",
+							},
+						)
 						.env("VERIF_SEED", seed.to_string())
 						.env("VERIF_DIR", dir.to_string_lossy().to_string())
 						.output();
